@@ -24,7 +24,8 @@ META = dict(
 )
 
 SOURCES = ['new_dict_pickle', 'new_list_pickle', 'new_dict_copy', 'new_list_copy', 'list_wu', 'cache_over_new', 'cache_over_raw', 'diskcache_over_new', 'eager_cache']
-ACCESS = ['idx', 'neg', 'key', 'slice', 'iter', 'items', 'copy']
+ACCESS = ['idx', 'neg', 'key', 'slice', 'iter', 'items', 'copy', 'kept_slice', 'kept_rev', 'kept_copy']
+KEPT = {}        # derived datasets that are created once per history and accessed again and again (a slice, a reversed view, a copy)
 MUTATE = ['setkey', 'append', 'nested', 'delete', 'clear', 'orig', 'arr_big', 'arr_small', 'arr_slice']
 N = 2
 _COUNTER = [0]
@@ -113,6 +114,11 @@ def _access(ds, acc, t, keyed):
         return dict(list(ds.items()))[f'k{t}'] if keyed else list(ds)[t]
     if acc == 'copy':
         return ds.copy()[t]
+    if acc.startswith('kept_'):
+        views = KEPT.setdefault(id(ds), {})
+        if acc not in views:
+            views[acc] = ds[0:N] if acc == 'kept_slice' else (ds[::-1] if acc == 'kept_rev' else ds.copy())
+        return views[acc][N - 1 - t] if acc == 'kept_rev' else views[acc][t]
     raise ValueError(acc)
 
 
@@ -175,6 +181,7 @@ def _run(source, steps, shape='dict'):
                 return False
         return True
     finally:
+        KEPT.clear()
         ds = None
         import gc
         gc.collect()
